@@ -229,10 +229,10 @@ def intOp (op : InfixOp) (a b : I64) (sp : Span) : M Val :=
     else if b.toNat > 4096 then throwCtl (.unsupported "huge integer exponent")
     else pure (.int (powNat a b.toNat))
   | .shl =>
-    if b.toInt < 0 then throwCtl (.fatal "ValueError" "Negative shift count" sp)
+    if b.toInt < 0 then throwCtl (.fatal "ValueError" "Negative shift count: this is operation is illegal" sp)
     else pure (.int (shlI a b))
   | .shr =>
-    if b.toInt < 0 then throwCtl (.fatal "ValueError" "Negative shift count" sp)
+    if b.toInt < 0 then throwCtl (.fatal "ValueError" "Negative shift count: this is operation is illegal" sp)
     else pure (.int (shrI a b))
   | .bitOr => pure (.int (a ||| b))
   | .bitAnd => pure (.int (a &&& b))
